@@ -123,6 +123,23 @@ CLAIMS = {
               "as such), the solver's share is the quantification over the table data; subset selectors inside multi-field keys "
               "and partial slices are outside the statement"),
         ref='DESIGN.md section 4 C12'),
+    'C13': dict(
+        text=("2-safety by self-composition over the real code: each of 16 randomised components (LAO*, LRTDP, A*, BFS, the four TD "
+              "learners, R-MAX, the two controller learners' seed plumbing, semi-MDP option simulation, implicit distributions, "
+              "MDP roll-out / Monte-Carlo evaluation, POMDP roll-out) is executed TWICE in one symbolic path with the same SYMBOLIC "
+              "integer seed, different prior states of the process-global generators and different interpreter hash salts. "
+              "Private generators are deterministic-uninterpreted (k-th draw = U(seed,k)), global generators return fresh values "
+              "and taint, hash() of anything containing a str is H(salt, x), sets of hash-randomised elements iterate in a "
+              "salt-dependent solver-chosen order. z3 proves: no global generator is read or written, every private generator "
+              "receives a seed that is the same term in both runs, and the two results are equal. Witnesses and counterexamples "
+              "are replayed in real interpreter processes (8 PYTHONHASHSEED values, differently seeded global generators, global "
+              "state compared before/after)."),
+        note=("examples: 3 string-named states / 2 actions (acyclic), a cyclic 2x3 string-named 'river' MDP for LRTDP (2 trials x 2 "
+              "steps), a 4-node string graph, a 2-state POMDP; the controller learners are checked through their constructors only "
+              "(their optimisation loops are compiled LP / autograd code); determinism of the PRNG bit streams is assumed. Four "
+              "defects found by this check were repaired in /repo (seed=0 in both controller learners; POMDP roll-out global "
+              "generator; salted hash in semi-MDP seeds)."),
+        ref='DESIGN.md section 4 C13'),
     'C14': dict(
         text=("Policy.run_on / evaluate_on / calc_returns and POMDPPolicy.run_on are executed with a nondeterministic generator "
               "(every draw a solver-chosen index among positive-weight items), a SYMBOLIC step cap and symbolic rewards, so all "
